@@ -277,7 +277,7 @@ def read_pixel_samples():
         notes.append(f"psd_image.py: {type(e).__name__}: {e}")
     # ---------------- pil_io.py
     info.update(create_image=[MISSING], create_rows=[], post_process=[MISSING], unmatte_callers=[MISSING], unmatte_exprs=[MISSING],
-                pil_inversions=[(MISSING, MISSING)], layer_tail=MISSING, doc_tail=[MISSING])
+                pil_inversions=[(MISSING, MISSING)], layer_tail=MISSING, doc_tail=[MISSING], pil_get_data=[MISSING])
     try:
         tree = ast.parse((_API / "pil_io.py").read_text())
         fn = _function(tree, "_create_image")
@@ -334,6 +334,7 @@ def read_pixel_samples():
                     except Exception:  # noqa
                         ex.append((n.lineno, n.col_offset, ast.unparse(n.args[0])))
             info["unmatte_exprs"] = [x for *_p, x in sorted(ex)]
+        info["pil_get_data"] = _get_data_calls(tree)
         lay = _function(tree, "convert_layer_to_pil")
         if lay is not None:
             rets = [st for st in _body(lay) if isinstance(st, ast.Return)]
@@ -344,7 +345,8 @@ def read_pixel_samples():
     except Exception as e:  # noqa
         notes.append(f"pil_io.py: {type(e).__name__}: {e}")
     # ---------------- numpy_io.py
-    info.update(parse_array=[MISSING], parse_rows=[], remove_background=[MISSING], numpy_const_minus=[MISSING])
+    info.update(parse_array=[MISSING], parse_rows=[], remove_background=[MISSING], numpy_const_minus=[MISSING],
+                numpy_get_data=[MISSING])
     try:
         tree = ast.parse((_API / "numpy_io.py").read_text())
         fn = _function(tree, "_parse_array")
@@ -360,6 +362,7 @@ def read_pixel_samples():
                 ar = _arith(mod)
                 rows.append((d, _astype_dtypes(mod), [(op, c.numerator, c.denominator) for op, c in ar], _calls(mod)))
             info["parse_rows"] = rows
+        info["numpy_get_data"] = _get_data_calls(tree)
         rb = _function(tree, "_remove_background")
         if rb is not None:
             info["remove_background"] = _flat(_body(rb))
@@ -373,6 +376,28 @@ def read_pixel_samples():
     except Exception as e:  # noqa
         notes.append(f"numpy_io.py: {type(e).__name__}: {e}")
     return info, notes
+
+
+def _get_data_calls(tree):
+    """every `x.get_data(...)` call of a module that decodes stored planes (function: call), in source order: the depth and
+    the file version handed to the channel decoders"""
+    out = []
+
+    def own_nodes(f):
+        stack = list(f.body)
+        while stack:
+            n = stack.pop()
+            if isinstance(n, ast.FunctionDef):
+                continue            # a nested function reports its own calls
+            yield n
+            stack.extend(ast.iter_child_nodes(n))
+    for f in ast.walk(tree):
+        if isinstance(f, ast.FunctionDef):
+            for n in own_nodes(f):
+                if isinstance(n, ast.Call) and isinstance(n.func, ast.Attribute) and n.func.attr == "get_data" \
+                        and any(k in ast.unparse(n) for k in ("depth", "header")):
+                    out.append((n.lineno, n.col_offset, f.name + ": " + ast.unparse(n)))
+    return [x for *_p, x in sorted(out)]
 
 
 def _inversions(fn):
@@ -410,7 +435,8 @@ def gen_pixel_samples(ctx):
                     header_depth_default=MISSING, header_asserts=[MISSING], doc_inversions=[(MISSING, MISSING)],
                     create_image=[MISSING], create_rows=[], post_process=[MISSING], unmatte_callers=[MISSING],
                     unmatte_exprs=[MISSING], pil_inversions=[(MISSING, MISSING)], layer_tail=MISSING, doc_tail=[MISSING],
-                    parse_array=[MISSING], parse_rows=[], remove_background=[MISSING], numpy_const_minus=[MISSING])
+                    parse_array=[MISSING], parse_rows=[], remove_background=[MISSING], numpy_const_minus=[MISSING],
+                    pil_get_data=[MISSING], numpy_get_data=[MISSING])
 
     def strs(xs):
         return "[" + ", ".join(lean_str(x) for x in xs) + "]"
@@ -459,7 +485,10 @@ def gen_pixel_samples(ctx):
         "/-- per depth: the dtypes of `frombuffer` / `astype`, the binary operations with a constant, every call -/\n"
         f"def parseRows : List (Nat × List String × List (String × Int × Nat) × List String) := {parse_rows}\n"
         f"def removeBackground : List String := {strs(info['remove_background'])}\n"
-        f"/-- every `constant - x` / `invert` of the module -/\ndef numpyConstMinus : List String := {strs(info['numpy_const_minus'])}\n\n"
+        f"/-- every `constant - x` / `invert` of the module -/\ndef numpyConstMinus : List String := {strs(info['numpy_const_minus'])}\n"
+        "/-- the calls that decode stored planes (function: call): which depth and file version they pass -/\n"
+        f"def pilGetData : List String := {strs(info['pil_get_data'])}\n"
+        f"def numpyGetData : List String := {strs(info['numpy_get_data'])}\n\n"
         "end PsdVerif.Generated.PixelSamples\n"
     )
     ctx.write_generated("PixelSamples", src)
